@@ -178,7 +178,7 @@ theorem pollComplete_new_prefix {S P R C : Type} (ops : Ops S P R C) (s : S) (e 
 /-- a fresh write on buffer `st` that the host answers at once with COMPLETED|k (`1 ≤ k ≤ remaining`):
 the operation completes in the same poll with `Complete(k)` and the buffer advanced by exactly `k` -/
 theorem pollComplete_write_immediate (st : WSt) (e : Env) (k : Nat) (hd : st.wr.done = false)
-    (hk : k ≤ st.buf.remaining) (hk2 : k < 268435455) (hc : st.buf.cursor ≤ st.buf.items.length) :
+    (hk : k ≤ st.buf.remaining) (hk2 : k ≤ 268435455) (hc : st.buf.cursor ≤ st.buf.items.length) :
     pollComplete streamWriteOps (WOp.new st) e (Host.packCode Host.COMPLETED k) =
       .ok (.ready (sresOf 0 k, { buf := { st.buf with cursor := st.buf.cursor + k }, wr := st.wr }),
            ⟨.done, none, false, none⟩, e)
@@ -196,7 +196,7 @@ been taken and the function ends (no longer `running`, nothing handed back), or 
 `write_buf` of the SAME buffer whose `remaining` is smaller by exactly `k` — a strictly decreasing
 measure, so at most `remaining` such steps happen in a row; the untransferred tail is never dropped. -/
 theorem write_all_progress (g : GChan) (e : Env) (one first : Bool) (st : WSt) (k : Nat) (hd : st.wr.done = false)
-    (hk1 : 1 ≤ k) (hk : k ≤ st.buf.remaining) (hk2 : k < 268435455) (hc : st.buf.cursor ≤ st.buf.items.length) :
+    (hk1 : 1 ≤ k) (hk : k ≤ st.buf.remaining) (hk2 : k ≤ 268435455) (hc : st.buf.cursor ≤ st.buf.items.length) :
     ∃ g' evs, g.pollAll e one first (WOp.new st) (Host.packCode Host.COMPLETED k) = .ok (g', e) evs ∧
       (if st.buf.remaining = k then g'.running = false ∧ g'.act = .idle
        else g'.running = true ∧
